@@ -709,9 +709,8 @@ pub(super) fn compile_instruction(ctx: &mut Context, data: MatchData) -> Result<
                     }
 
                     if let Some(value) = as_float(value) {
-                        let value = value as f32;
-
-                        if let Some(&(_, bits)) = FP_IMM_VALUE_MAP.iter().find(|(val, bits)| val == &value) {
+                        // the literal is a double: it has to be one of the table values exactly, not merely round to one
+                        if let Some(&(_, bits)) = FP_IMM_VALUE_MAP.iter().find(|(val, _)| f64::from(*val) == value) {
                             statics.push((offset, u32::from(bits)));
                             break 'fpimm;
                         }
